@@ -40,6 +40,8 @@ fn statements() -> Vec<String> {
             // numerically equal, differently written: the binding holds what was written last
             // names that differ from x / y only by a leading character Unicode calls whitespace
             "\u{a0}x = 9", "x = \u{a0}x",
+            // a name that differs from a bound one in letter case only was never bound
+            "y = X", "X",
             "x = 7", "x = 2.5", "x += 0.00", "x *= 1.0", "x = 0", "x = - 0", "x = [1.0, 'b']",
         ]
         .iter()
